@@ -334,6 +334,23 @@ Proof.
   rewrite M1, M2, M3, chs_regs, chs_callee_regs, chs_idgen. repeat split; reflexivity.
 Qed.
 
+(** a CALL answered no_such_procedure: a pending call with that id is dropped *)
+Lemma nps_wf : forall lookup d cid, dealer_wf lookup d -> dealer_wf lookup (no_proc_state d cid).
+Proof.
+  intros lookup d cid WF. destruct (cget (d_bycall d) cid) as [k|] eqn:Hb.
+  2:{ rewrite nps_none by exact Hb. exact WF. }
+  pose proof (wf_calls _ _ WF) as W.
+  destruct (cw_bycall _ W _ _ Hb) as (inv & Hi & _).
+  rewrite (nps_some d cid k inv Hb Hi).
+  eapply dealer_wf_regs_same; [| exact WF | |].
+  - unfold regs_side_eq, drop_call. dproj.
+    rewrite ?ct_exact, ?ct_pfx, ?ct_wc, ?ct_regs, ?ct_callee_regs, ?ct_idgen. repeat split; reflexivity.
+  - apply core_drop; [apply core_cancel_timer; exact W | rewrite ct_bycall; exact Hb |].
+    eapply no_timer_after_cancel; eauto.
+  - eapply calls_att_sub; [|apply (wf_calls_att _ _ WF)].
+    eapply calls_sub_trans; [apply (sub_cancel_timer d (inv_timer inv)) | apply sub_drop].
+Qed.
+
 (** What [call] needs from the session table: ids match, generators not at
     the wrap-around point. *)
 Definition nowrap (lookup : N -> option session) : Prop :=
@@ -357,7 +374,7 @@ Proof.
   { intros r next Hm. apply (best_match_sound lookup d WF) in Hm. destruct Hm as [Hr _].
     destruct (call_d0_wf lookup d r next A B C Hr) as (A' & B' & C').
     eapply dealer_wf_calls_same; eauto. apply call_d0_side. }
-  inversion H; subst; auto.
+  inversion H; subst; auto using nps_wf.
   - (* further chunk *)
     match goal with Hl : lookup (inv_callee inv) = Some callee |- _ => rename Hl into Hlk end.
     split; [rewrite (LOK _ _ Hlk); unfold attached; congruence|].
